@@ -24,7 +24,7 @@ func init() {
 		Phases: func(tier string, seed int64) []Phase {
 			return []Phase{{Name: "histories-plain", Run: func(c *Ctx) { c20Run(c, "plain") }}, {Name: "histories-tls", Run: func(c *Ctx) { c20Run(c, "tls") }}}
 		},
-		MinObserved: []string{"steps", "searches_compared", "op/add", "op/modify", "op/delete", "op/set", "searches_with_odd_parameters", "searches_based_at_a_dn_below_the_groups_base", "searches_for_dns_with_parentheses", "setusers_with_the_same_objects_again", "histories_steps_with_token_groups_configured", "modifies_without_changes_of_a_missing_entry", "delete_attribute_changes_that_list_all_the_values", "fill_and_drain_histories"},
+		MinObserved: []string{"steps", "searches_compared", "op/add", "op/modify", "op/delete", "op/set", "searches_with_odd_parameters", "searches_based_at_a_dn_below_the_groups_base", "searches_for_dns_with_parentheses", "setusers_with_the_same_objects_again", "histories_steps_with_token_groups_configured", "modifies_without_changes_of_a_missing_entry", "delete_attribute_changes_that_list_all_the_values", "fill_and_drain_histories", "groups_deleted_while_there_was_no_user", "people_searches_whose_base_is_written_in_another_case"},
 	})
 }
 
@@ -311,7 +311,14 @@ func c20History(c *Ctx, td interface {
 			mode = "groups-filter"
 			op = sber.Search{Base: []byte(c20Groups), Scope: 2, Filter: sber.EqFilter("cn", cn[3:]), Attrs: [][]byte{}, SizeLimit: limit}.Node()
 		case r.Bool():
-			op = sber.Search{Base: []byte(c20People), Scope: 2, Filter: sber.EqFilter("cn", cn[3:]), Attrs: [][]byte{}, SizeLimit: limit}.Node()
+			base := c20People
+			if r.Chance(30) {
+				// the people base written the way another client writes it (search routes match their base whatever the case)
+				base = pick(r, []string{"OU=People,DC=Example,DC=Org", "ou=People,dc=example,dc=org", "OU=PEOPLE,DC=EXAMPLE,DC=ORG"})
+				mode = "people-filter-base-in-another-case"
+				c.Count("people_searches_whose_base_is_written_in_another_case", 1)
+			}
+			op = sber.Search{Base: []byte(base), Scope: 2, Filter: sber.EqFilter("cn", cn[3:]), Attrs: [][]byte{}, SizeLimit: limit}.Node()
 		default:
 			mode = "base-is-entry-dn"
 			op = sber.Search{Base: []byte(dn), Scope: 0, Filter: sber.PresentFilter("objectClass"), Attrs: [][]byte{}, SizeLimit: limit}.Node()
@@ -376,8 +383,9 @@ func c20History(c *Ctx, td interface {
 	// every sixth history begins as a fill-and-drain: the users are set to none, 5..9 pool users are added one after the
 	// other and then deleted again, in another order, down to the last one (every step verified like any other)
 	type planned struct {
-		op int
-		dn string
+		op  int
+		dn  string
+		grp bool
 	}
 	var plan []planned
 	if h%6 == 3 {
@@ -386,10 +394,18 @@ func c20History(c *Ctx, td interface {
 		lastSet, lastSetObjs = nil, nil
 		n := 5 + r.Intn(5)
 		for _, i := range r.Perm(c20NUsers)[:n] {
-			plan = append(plan, planned{0, c20UserDN(i)})
+			plan = append(plan, planned{0, c20UserDN(i), false})
 		}
 		for _, j := range r.Perm(n)[:n-1] {
-			plan = append(plan, planned{6, plan[j].dn})
+			plan = append(plan, planned{6, plan[j].dn, false})
+		}
+		// ... and while there is no user at all, a group is deleted (what list an entry is in does not depend on the other list)
+		for i := 0; i < c20NGroups; i++ {
+			if _, ok := model.Groups[c20GroupDN(i)]; ok {
+				plan = append([]planned{{6, c20GroupDN(i), true}}, plan...)
+				c.Count("groups_deleted_while_there_was_no_user", 1)
+				break
+			}
 		}
 		steps = len(plan) + r.Intn(6)
 		c.Count("fill_and_drain_histories", 1)
@@ -397,9 +413,9 @@ func c20History(c *Ctx, td interface {
 	for s := 0; s < steps; s++ {
 		k := clients[r.Intn(len(clients))]
 		c.Count("steps", 1)
-		opc, forcedDN := r.Intn(10), ""
+		opc, forcedDN, forcedGrp := r.Intn(10), "", false
 		if s < len(plan) {
-			opc, forcedDN = plan[s].op, plan[s].dn
+			opc, forcedDN, forcedGrp = plan[s].op, plan[s].dn, plan[s].grp
 		}
 		switch opc {
 		case 0, 1, 2: // add
@@ -544,7 +560,7 @@ func c20History(c *Ctx, td interface {
 				dn = c20UserDN(r.Intn(c20NUsers))
 			}
 			if forcedDN != "" {
-				dn, isGroup = forcedDN, false
+				dn, isGroup = forcedDN, forcedGrp
 			}
 			trace = append(trace, "delete "+dn)
 			kinds = append(kinds, "D")
